@@ -11,7 +11,7 @@ SITES = ['read_password', 'tfi_init']
 TRUSTED = ["Python int() on the count token, bytes.fromhex().decode(), str.encode() (parameters of the model, shipped per input)",
            'codecs stream reader line splitting = str.splitlines (table validated exhaustively in C07)']
 ASSUMPTIONS = ['a plain line can denote a password only if it is not itself of the form $HEX[...] and contains no line boundary',
-               'count-collapsing keeps first-occurrence order (adjacent duplicates collapsed)']
+               'count-collapsing keeps first-occurrence order (duplicates, adjacent or not, collapsed onto the first occurrence)']
 
 WORDS = ['password', 'pass word', ' lead', 'trail ', 'two  spaces', 'ümlaut', 'пароль', 'Σίσυφος', '$HEX[41]x', '$HEX[zz]', 'a$HEX[41]',
          '123456', 'p@ss!', '1 2 3', '５', 'tab\there', 'ctl\x01', 'us\x1fx', '\x1flead', 'esc\x1bx', 'nul\x00x', 'del\x7fx', 'nbsp\xa0x', '\xa0lead', 'x', '😀pw', '', ' ', '$HEX[]', 'q' * 30,
@@ -252,7 +252,7 @@ def run(ctx):
         if len(samples) < 3 and 'hex' in kinds and 'plain' in kinds:
             samples.append({'encoding': enc, 'lines': [b.decode(enc, errors='replace') for _, b in lines][:6], 'yielded': outA[:6]})
     # full trained rulesets: plain repeated vs hex vs count-prefixed
-    for i in range(ctx.scale(2, 10)):
+    for i in range(ctx.scale(4, 12)):
         enc = rng.choice(['utf-8', 'cp1251'])
         base = [w for w in ['password', 'pass word', 'пароль', 'trail ', '123456', 'p@ss!', 'qwerty12', 'abc', 'Summer2019', 'x1',
                             '\ufeffbom1', '\ufeff', 'in\ufeffside'] if rng.random() < 0.8]
@@ -269,13 +269,33 @@ def run(ctx):
             # a list without any repetition; its counted form also carries a line for a password counted zero times, ahead of that
             # password's single occurrence: nothing a reader notices on the way (here: "a duplicate was seen") may reach the ruleset
             rep = [(rep[-1][0], 0)] + rep
+        order = None
+        if i in (2, 3):
+            # repeated lines that are not adjacent: the counted form lists every password once, in order of first occurrence (what
+            # collapsing a list does); words at the multi-word threshold (4 / 5 occurrences) followed by passwords too short or too
+            # long for the multi-word trainer, so that a count that depends on the neighbours of a line decides a parsing
+            enc = 'utf-8'
+            pool = [('monkey', 5), ('dragon12', 3), ('password', 4), ('abc', 2), ('passwordmonkey', 1), ('q' * 24, 2), ('summer', 4), ('x1', 3),
+                    ('summermonkey', 1), ('123456', 6)]
+            if i == 3:
+                pool = [pool[k] for k in rng.sample(range(len(pool)), len(pool))]
+            rep = [(w.encode(enc), n) for w, n in pool]
+            order = [k for k, _ in enumerate(rep)]
+            for k, (_, n) in enumerate(rep):
+                for _ in range(n - 1):
+                    # dense words stay adjacent to their first occurrence, the short / long ones come back later
+                    at = order.index(k) + 1 if len(rep[k][0]) in range(4, 22) else rng.randint(min(order.index(k) + 2, len(order)), len(order))
+                    order.insert(at, k)
+        else:
+            order = [k for k, (_, n) in enumerate(rep) for _ in range(n)]
+        dist['nonadjacent_repeats'] = dist.get('nonadjacent_repeats', 0) + int(any(order[j] in order[:j] and order[j - 1] != order[j] for j in range(1, len(order))))
         f1, f2, f3 = (os.path.join(root, n) for n in ('t1.txt', 't2.txt', 't3.txt'))
         with open(f1, 'wb') as f:
-            for b, n in rep:
-                f.write((b + b'\n') * n)
+            for k in order:
+                f.write(rep[k][0] + b'\n')
         with open(f2, 'wb') as f:
-            for b, n in rep:
-                f.write((b'$HEX[' + b.hex().encode() + b']\n') * n)
+            for k in order:
+                f.write(b'$HEX[' + rep[k][0].hex().encode() + b']\n')
         with open(f3, 'wb') as f:
             for b, n in rep:
                 f.write(b'  ' + str(n).encode() + b' ' + b + b'\n')
@@ -286,12 +306,12 @@ def run(ctx):
         dist['trained_pairs'] += 1
         if not all(oks):
             if any(oks):
-                viol.append({'property': 'C19', 'kind': 'training-success-differs', 'ok': oks, 'witness': {'rep': [(b.hex(), n) for b, n in rep], 'encoding': enc}})
+                viol.append({'property': 'C19', 'kind': 'training-success-differs', 'ok': oks, 'witness': {'rep': [(b.hex(), n) for b, n in rep], 'order': order, 'encoding': enc}})
             continue
         for other, kind in ((rdirs[1], 'hex-ruleset-differs'), (rdirs[2], 'count-ruleset-differs')):
             d = same_ruleset(rdirs[0], other)
             if d:
-                viol.append({'property': 'C19', 'kind': kind, 'files': d[:5], 'witness': {'rep': [(b.hex(), n) for b, n in rep], 'encoding': enc}})
+                viol.append({'property': 'C19', 'kind': kind, 'files': d[:5], 'witness': {'rep': [(b.hex(), n) for b, n in rep], 'order': order, 'trained': True, 'encoding': enc}})
     # the command line without --encoding: the encoding is auto-detected.  The same list as plain / $HEX[] / count-prefixed file, each
     # saved with a UTF-8 byte order mark (and once without), must train the same ruleset through `trainer.py` itself
     for variant, bom in (('bom', b'\xef\xbb\xbf'),) + ((('nobom', b''),) if not ctx.quick else ()):
@@ -326,6 +346,22 @@ def replay(ctx, payload):
     root = common.scratch_dir('c19r')
     enc = w.get('encoding', 'utf-8')
     out = []
+    if w.get('trained'):
+        rep = [(bytes.fromhex(h), n) for h, n in w['rep']]
+        order = w.get('order') or [k for k, (_, n) in enumerate(rep) for _ in range(n)]
+        f1, f2, f3 = (os.path.join(root, n) for n in ('t1.txt', 't2.txt', 't3.txt'))
+        open(f1, 'wb').write(b''.join(rep[k][0] + b'\n' for k in order))
+        open(f2, 'wb').write(b''.join(b'$HEX[' + rep[k][0].hex().encode() + b']\n' for k in order))
+        open(f3, 'wb').write(b''.join(b'  ' + str(n).encode() + b' ' + b + b'\n' for b, n in rep))
+        rdirs = [os.path.join(common.scratch_dir('rules'), n) for n in ('c19ra', 'c19rb', 'c19rc')]
+        oks = [common.train(f1, rdirs[0], encoding=enc, ngram=3)[0], common.train(f2, rdirs[1], encoding=enc, ngram=3)[0],
+               common.train(f3, rdirs[2], encoding=enc, ngram=3, prefixcount=True)[0]]
+        if not all(oks):
+            return [{'kind': 'training-success-differs'}] if any(oks) else []
+        for other, kind in ((rdirs[1], 'hex-ruleset-differs'), (rdirs[2], 'count-ruleset-differs')):
+            if same_ruleset(rdirs[0], other):
+                out.append({'kind': kind})
+        return out
     if 'lines' in w:
         pa, pb = os.path.join(root, 'a.txt'), os.path.join(root, 'b.txt')
         ls = [bytes.fromhex(h) for h in w['lines']]
